@@ -234,6 +234,74 @@ Section Codecs.
     forall k v b, k <> KText -> cenc k v = Some b -> cdec k (shape_of v) b = Some (deref v).
 End Codecs.
 
+(* ---- http.ResponseWriter, as far as status and Content-Type are concerned: headers are
+        frozen by the first WriteHeader (or the first Write, which implies WriteHeader(200));
+        what is set afterwards never reaches the client ---- *)
+Record writer := { live : bytes;                  (* w.Header().Get("Content-Type") *)
+                   sent : option (N * bytes) }.   (* status and Content-Type at the freeze *)
+Definition w_new (preset : bytes) : writer := {| live := preset; sent := None |}.
+Definition w_set_live (h : bytes) (w : writer) : writer := {| live := h; sent := sent w |}.
+Definition w_write_header (st : N) (w : writer) : writer :=
+  match sent w with
+  | Some _ => w
+  | None => {| live := live w; sent := Some (st, live w) |}
+  end.
+Definition w_write (w : writer) : writer := w_write_header 200 w.
+(* what the client reads; a writer that froze without a Content-Type fills one in by itself
+   (net/http sniffs the body; the recorder leaves it empty): [sniff] *)
+Definition wire (sniff : bytes) (w : writer) : option (N * bytes) :=
+  match sent w with
+  | Some (st, h) => Some (st, if beq h [] then sniff else h)
+  | None => None
+  end.
+
+(* errors handed to goahttp.ErrorEncoder: a ServiceError (possibly wrapped) or anything else,
+   which NewErrorResponse turns into a fault *)
+Inductive goerr := EService (e : err) | EPlain.
+Definition fault_name : bytes := Eval vm_compute in bs "fault".
+Definition error_response (g : goerr) : err :=
+  match g with
+  | EService e => e
+  | EPlain => {| ename := fault_name; etimeout := false; etemporary := false; efault := true |}
+  end.
+
+Section Send.
+  Variable pmt : bytes -> option bytes.
+  Variable pmt_err_mt : bytes -> bytes.
+  Variable cenc : kind -> value -> option bytes.
+
+  (* the sequence of the generated response encoders and of goahttp.ErrorEncoder:
+       enc := encoder(ctx, w); w.WriteHeader(status); enc.Encode(v)
+     Result: encoder, body written (None: nil encoder or Encode error), writer afterwards *)
+  Definition send (accept ct : bytes) (w : writer) (st : N) (v : value) : option kind * option bytes * writer :=
+    let '(k, h) := response_encoder pmt pmt_err_mt accept ct (live w) in
+    let w1 := w_write_header st (w_set_live h w) in
+    match k with
+    | None => (None, None, w1)
+    | Some k' => match encode cenc k' v with
+                 | Some b => (k, Some b, w_write w1)
+                 | None => (k, None, w1)
+                 end
+    end.
+
+  (* the same three steps with the status written first *)
+  Definition send_status_first (accept ct : bytes) (w : writer) (st : N) (v : value) : option kind * option bytes * writer :=
+    let w0 := w_write_header st w in
+    let '(k, h) := response_encoder pmt pmt_err_mt accept ct (live w0) in
+    let w1 := w_set_live h w0 in
+    match k with
+    | None => (None, None, w1)
+    | Some k' => match encode cenc k' v with
+                 | Some b => (k, Some b, w_write w1)
+                 | None => (k, None, w1)
+                 end
+    end.
+
+  (* goahttp.ErrorEncoder(encoder, nil)(ctx, w, err): the ErrorResponse is a struct *)
+  Definition error_encoder (accept ct : bytes) (w : writer) (g : goerr) : option kind * option bytes * writer :=
+    send accept ct w (http_status (error_response g)) (VStruct 0).
+End Send.
+
 (* ---- hypotheses on the parser oracle under which the round-trip theorems are stated;
         the harness checks each of them on every answer of the real parser it logs ---- *)
 (* parsing a media type the parser itself returned does not change it *)
